@@ -1110,6 +1110,7 @@ func pkgHasSyncVars(pkg string) bool {
 // no comparison orders and that live in different hash buckets, sets / maps / objects with more
 // members than one map bucket holds, nested.  64 reads each; results compared as printed.
 func c20RepeatedReads(c *Ctx) {
+	c.Note("repeated_reads", "10 values x 6 accessors x 64 reads: Go map iteration order is not under the harness's control, so this clause repeats reads instead of enumerating orders (a result that depends on map order flips with probability >= 1/8 per read)")
 	c.Unit(func(u *U) {
 		a, b, w := cty.NumberFloatVal(0.1), cty.NumberFloatVal(0.1).Add(cty.NumberIntVal(0)), cty.NumberFloatVal(0.1).Multiply(parseNum("1"))
 		var many []cty.Value
